@@ -209,7 +209,7 @@ def finalize(agg):
         if st.get(c, 0) < 10:
             reasons.append("%s evaluated only %d times" % (c, st.get(c, 0)))
     sites = sorted(set(int(k.split("|")[1]) for k in st if k.startswith("soft_restart_site|")))
-    cov = dict(objfun_calls=int(st.get("objfun_calls", 0)), results_checked=int(st.get("results_checked", 0)),
+    cov = dict(evaluations=int(st.get("runs", 0)), objfun_calls=int(st.get("objfun_calls", 0)), results_checked=int(st.get("results_checked", 0)),
                claims_evaluated={k[6:]: int(v) for k, v in st.items() if k.startswith("claim|")},
                exit_records_ending_a_run=recs, soft_restart_call_sites_reached=sites,
                soft_restart_call_sites_note="solver.py has 16 call sites of soft_restart; those not listed were not observed in this run and the "
